@@ -20,6 +20,8 @@ def run(res, pool, tier, seed):
             dict(module="MC_BodyBody.tla", tag="bodybody", invariants=["Typed", "Symmetric", "Emit"], timeout=7200, batch=40,
                  constants=dict(S=2, BODIES1=set(POLYH + POLYG), BODIES2=set(POLYH + POLYG), T=2, SEED=sd + 2, NSHARD=40 if q else 4))]
     engine.run_jobs(res, jobs, pool)
+    import traces
+    traces.run_for(res, ["unit_tests", "driver"], {"C04"}, seed=seed + 9, nsessions=250 if q else 2500)
     res.extra["cells_seen"] = sorted({k.split("|")[0] + "|" + k.split("|")[1] for k in res.classes})
 
 
@@ -73,7 +75,7 @@ def replay_case(case, tag, rng, tier):
 
 
 def finish(res):
-    cells = res.extra.get("cells_seen", [])
+    cells = [c for c in res.extra.get("cells_seen", []) if "|" in c]
     ordered = set()
     for c in cells:
         x, y = c.split("|")
